@@ -49,7 +49,7 @@ Definition is_join (m : bmsg) : bool := match m with JoinRoom _ => true | _ => f
 (* ---------------------------------------------------------------------------------------- *)
 (* (2) the machine *)
 
-Inductive cstate := Uninit | Connected | Closed.
+Inductive cstate := Uninit | Connecting | Connected | Closed.   (* Connecting: a reconnect attempt of the watchdog is in flight *)
 Inductive reply := RepOk | RepRejected | RepGarbled | RepEof.
 (* SessionInitializedEvent listeners, in registration order (client.py 66-82) *)
 Inductive handler := HNetwork | HDistributed | HUsers | HRooms | HInterests | HShares | HTransfers | HSearches.
@@ -67,6 +67,8 @@ Inductive event :=
 | LostInTracking (r : reason)            (* write error / timeout noticed inside a user tracking task *)
 | ParentUp                               (* a distributed parent connection is established (independent of the server connection) *)
 | Tick (ok : bool)                       (* reconnect.timeout passes; the server accepts (ok) or refuses the connect *)
+| TickSlow                               (* reconnect.timeout passes; the connect attempt stays in flight (slow handshake) *)
+| ConnectDone (ok : bool)                (* the attempt in flight completes: accepted / refused *)
 | Command
 | Stop.
 
@@ -156,6 +158,18 @@ Definition step (auto : bool) (x : st) (e : event) : st * list out :=
           else (x, [])
       | _ => (x, [])
       end
+  | TickSlow =>
+      match conn x with
+      | Closed => if watchdog x then (mkSt Connecting (session x) (msession x) (derived x) (dist x && negb state_change_resets_dist) (watchdog x) (parents x) (stopped x) false, [OConnect]) else (x, [])
+      | _ => (x, [])
+      end
+  | ConnectDone ok =>
+      match conn x with
+      | Connecting =>
+          if ok then (mkSt Connected (session x) (msession x) (derived x) false (watchdog x) (parents x) (stopped x) true, [OLoginSent])
+          else closed RConnectFailed x
+      | _ => (x, [])
+      end
   | ParentUp => (x, [])
   | Command => (x, [if session x then OSent else ORefused])
   | Stop =>
@@ -166,6 +180,10 @@ Definition step (auto : bool) (x : st) (e : event) : st * list out :=
           let '(y, o) := closed RRequested x in
           (mkSt (conn y) (session y) (msession y) (derived y) (dist y) (watchdog y && negb stop_cancels_watchdog)
                 (parents y && negb stop_stops_distributed) true false, o)
+      | Connecting =>   (* cancelling the watchdog cancels its connect attempt (DataConnection.connect closes with CONNECT_FAILED and
+                           re-raises the cancellation); without that cancel the attempt would go on *)
+          (mkSt (if stop_cancels_watchdog then Closed else Connecting) (session x) (msession x) false (dist x) (watchdog x && negb stop_cancels_watchdog)
+                (parents x && negb stop_stops_distributed) true false, [])
       | _ =>   (* disconnect() of a CLOSED / never opened connection returns at once: no CLOSING notification *)
           (mkSt (conn x) (session x) (msession x) false (dist x) (watchdog x && negb stop_cancels_watchdog)
                 (parents x && negb stop_stops_distributed) true (pending x), [])
